@@ -105,6 +105,9 @@ func c20Session(c *Ctx, logger *rig.CapLogger, pass, kind string, capn, useSasl,
 	}
 	s := NewSession(SessionOpts{Flood: true, Tracking: tracking, Mutate: func(cfg *client.Config) {
 		cfg.Pass = pass
+		if kind == "connectto" {
+			cfg.Pass = ""
+		}
 		cfg.EnableCapabilityNegotiation = capn
 		if useSasl {
 			cfg.Sasl = sasl.NewPlainClient("", "saslu", "saslsecret")
@@ -135,7 +138,13 @@ func c20Session(c *Ctx, logger *rig.CapLogger, pass, kind string, capn, useSasl,
 		cycles = 2
 	}
 	for cy := 0; cy < cycles; cy++ {
-		err := s.Conn.Connect()
+		var err error
+		if kind == "connectto" {
+			// the password is not in the configuration: it is handed over with the call
+			err = s.Conn.ConnectTo("irc.test", pass)
+		} else {
+			err = s.Conn.Connect()
+		}
 		if kind == "refused" {
 			return logger.Records(), false, err != nil
 		}
@@ -297,7 +306,7 @@ func runC20(c *Ctx) {
 	total := c.Pick(4000, 100000)
 	per := total / parts
 	logger := rig.NewCapLogger(nil)
-	kinds := []string{"ok", "ok", "refused", "writeerr", "eof", "reconnect", "scrub", "stallclose", "badcfg"}
+	kinds := []string{"ok", "ok", "refused", "writeerr", "eof", "reconnect", "scrub", "stallclose", "badcfg", "connectto"}
 	for i := 0; i < per; i++ {
 		idx := part*per + i
 		if !c.Want("pw", idx) {
